@@ -1021,6 +1021,17 @@ VARIANTS += [
     M("from-dict-leaf-mapping-through-names", MODEL, "            leaf_object_species = parse_tree_mapping(\n                object_tree, species_tree, data[\"leaf_object_species\"]\n            )", "            leaf_object_species = get_species_mapping(object_tree, species_tree)\n            leaf_object_species.update(parse_tree_mapping(\n                object_tree, species_tree, dict(data[\"leaf_object_species\"])\n            ))", "FIELD-SOURCE"),
     M("spfs-prec-graph-maximal-leaves", SPFS, "            prec_graph = _make_prec_graph(leaf_syntenies)", "            prec_graph = _make_prec_graph({n: s for n, s in leaf_syntenies.items() if len(s) > 1})", "ROOT-ORDER-SOURCE"),
     M("tikz-layout-label-newlines-late", LAYOUT, "                ).replace(\"\\n\", \"\\\\\\\\\")\n                if root_gene in syntenies", "                )\n                if root_gene in syntenies", "LABEL-LINEBREAKS"),
+    # ---- ninth round
+    M("layout-leaf-name-split-left", LAYOUT, 'root_gene.name.rsplit("_", 1)', 'root_gene.name.split("_")', "UNPACK-SPLIT"),
+    T("twin-layout-leaf-name-rsplit-kw", LAYOUT, 'root_gene.name.rsplit("_", 1)', 'root_gene.name.rsplit("_", maxsplit=1)'),
+    M("tikz-get-color-validated", TIKZ, "        if html in colors:\n", "        if len(html) != 6:\n            html = \"000000\"\n\n        if html in colors:\n", "PARAM-NOT-REWRITTEN"),
+    M("proxy-first-write-seeded", DP, "                entry[self._key[-1]] = self._parent.entry()\n", "                first, *candidates = candidates\n                entry[self._key[-1]] = self._parent.entry(first.value, [first.info] if first.info else [])\n", "VARARGS-AS-GIVEN"),
+    M("cli-cost-options-crossed", CLI, '    EdgeEvent.FULL_LOSS: ("floss", "a full loss"),\n    EdgeEvent.SEGMENTAL_LOSS: ("sloss", "a segmental loss"),', '    EdgeEvent.FULL_LOSS: ("sloss", "a full loss"),\n    EdgeEvent.SEGMENTAL_LOSS: ("floss", "a segmental loss"),', "COST-OPTIONS"),
+    M("model-cost-charges-root-depth", MODEL, "        return self._cost_rec(self.input.object_tree)", "        return self._cost_rec(self.input.object_tree) + self.input.costs[EdgeEvent.FULL_LOSS] * self.input.species_lca.level(self.object_species[self.input.object_tree])", "EVAL-NO-SHORTCUT"),
+    T("twin-model-cost-root-local", MODEL, "        return self._cost_rec(self.input.object_tree)", "        root = self.input.object_tree\n        return self._cost_rec(root)"),
+    M("prec-graph-dict-merge", SPFS, "            if gene_1 not in prec:\n                prec[gene_1] = set()\n            prec[gene_1].add(gene_2)\n", "            prec = {**prec, gene_1: {gene_2}}\n", "GRAPH-KEYS"),
+    M("thl-root-hosts-filtered", REC, "    for root_species in rec_input.species_lca.tree.traverse():\n        results.update(", "    for root_species in rec_input.species_lca.tree.traverse():\n        if root_species.is_leaf():\n            continue\n\n        results.update(", "RESULT-SCOPE"),
+    M("cli-eval-cost-literal", CLI, "    return eval(cost)  # pylint: disable=eval-used", "    import ast as _ast\n    return _ast.literal_eval(cost)", "COST-NO-ROUNDING"),
     M("update-returns-in-loop", DP, "                self._value = value\n\n    update.__doc__", "                self._value = value\n                return\n\n    update.__doc__", "UPDATE-ALL-CANDIDATES"),
 ]
 
@@ -1031,7 +1042,7 @@ CANARY_RULES = (
     "COPY-BEFORE-MUTATE", "FRESH-ATTACH", "FRESH-STARTS", "ESCAPE-TAINT", "PREORDER-STATE", "TABLE-FRESH-CELLS",
     "NONE-SENTINEL-TRUTH", "OPTIONAL-CHECKED", "NO-TOPOLOGY-WRITE", "ELEMENT-UPDATE", "RESULT-UNCONDITIONAL",
     "FIELD-SOURCE", "SORT-KEY-ALIGNED", "ENTRY-OWNS-TAGS",
-    "KINDS-COMPLETE", "TREE-AS-GIVEN", "BRANCH-COMPLETE-ASSIGN", "TRIPLES-RECURSION", "JSON-INFINITE-COSTS", "LABEL-LINEBREAKS", "LOSS-COLOR-OWN",
+    "UNPACK-SPLIT", "PARAM-NOT-REWRITTEN", "VARARGS-AS-GIVEN", "KINDS-COMPLETE", "TREE-AS-GIVEN", "BRANCH-COMPLETE-ASSIGN", "TRIPLES-RECURSION", "JSON-INFINITE-COSTS", "LABEL-LINEBREAKS", "LOSS-COLOR-OWN",
     "PARSE-READONLY", "GEOM-NO-ORDER", "GRAPH-AS-GIVEN", "EVAL-NO-SHORTCUT", "CLOSURE-LATE-BINDING", "REFINEMENT-PAIRING", "KIND-ENUM-BASE", "TAG-TEST-CONSISTENT", "ROOT-CONTENT",
     "KEY-GUARD", "HASH-IDENTITY", "COST-GUARD", "COPY-FAITHFUL", "NAME-AS-KEY", "ENUM-NO-TRUNCATION", "SET-ALGEBRA-ARGS",
     "LEAF-MAP-DOMAIN", "WIDTH-VERBATIM", "TOPO-VERDICT", "ROOT-ORDER-SOURCE",
